@@ -231,3 +231,9 @@ def run(ctx):
     from .. import numeric
     _run(ctx)
     numeric.arith_base(ctx, "C04.B1")
+    # the two refunds are shares of two *different* balances: on a pair whose two assets are the same asset, one balance is
+    # reported as both reserves and r*a/S is paid twice.  Pairs come from the factory, which refuses identical assets.
+    from .. import compose
+    from . import c16
+    p1 = ctx.inst("C04.P1", "precondition from the factory: a pair's two assets are distinct (same-asset guard of pair creation, shared with C16.R4) — otherwise one balance backs both refunds", floor=1)
+    compose.pull(ctx, p1, c16, {"C16.R4"}, "C04.P1", key_rx=r":(no-same-asset-guard|same-asset-[a-z-]+|anchor|floor)")
